@@ -45,12 +45,18 @@ func (o hop) String() string {
 	case "open":
 		return fmt.Sprintf("O(s%d,p%d)", o.S, o.P)
 	case "ev":
+		if o.P != 0 && o.P != o.S {
+			return fmt.Sprintf("E(s%d,%s,pid p%d)", o.S, o.T, o.P)
+		}
 		return fmt.Sprintf("E(s%d,%s)", o.S, o.T)
 	case "disp":
 		return fmt.Sprintf("D(s%d)", o.S)
 	case "noise":
 		if o.T == "unknown_ses" {
-			return fmt.Sprintf("N(unknown s%d)", o.S)
+			return fmt.Sprintf("N(unknown s%d,pid p%d)", o.S, o.P)
+		}
+		if o.P != 0 {
+			return fmt.Sprintf("N(%s,p%d)", o.T, o.P)
 		}
 		return fmt.Sprintf("N(%s)", o.T)
 	case "clean":
@@ -60,6 +66,14 @@ func (o hop) String() string {
 }
 
 const farFuture = 1 << 20
+
+// opPidString: the pid field an event op carries (0 = some unrelated process).
+func opPidString(o hop) string {
+	if o.P == 0 {
+		return "778"
+	}
+	return strconv.Itoa(pidValue(o.P))
+}
 
 func sesString(s int) string { return strconv.Itoa(500 + s) }
 func pidValue(p int) int     { return 2000 + p }
@@ -94,9 +108,11 @@ func apiEvent(i int, o hop) *aucoalesce.Event {
 	case "disp":
 		e.Type = auparse.AUDIT_CRED_DISP
 		e.Session = sesString(o.S)
+		e.Process.PID = opPidString(o)
 	case "ev":
 		e.Type = evTypes[o.T]
 		e.Session = sesString(o.S)
+		e.Process.PID = opPidString(o)
 		if o.T == "SYSCALL" {
 			e.Process.Args = []string{"cmd" + strconv.Itoa(i), "-x"}
 		}
@@ -113,10 +129,22 @@ func apiEvent(i int, o hop) *aucoalesce.Event {
 			e.Session = ""
 		case "unset":
 			e.Session = "unset"
+		case "login_unset":
+			e.Type = auparse.AUDIT_LOGIN
+			e.Session = "unset"
+			e.Process.PID = strconv.Itoa(pidValue(o.P))
+		case "login_nosession":
+			e.Type = auparse.AUDIT_LOGIN
+			e.Session = ""
+			e.Process.PID = strconv.Itoa(pidValue(o.P))
 		default:
 			e.Session = sesString(o.S)
+			e.Process.PID = opPidString(o)
 			if i%4 == 1 {
 				e.Type = auparse.AUDIT_CRED_DISP
+			}
+			if i%4 == 2 {
+				e.Type = auparse.AUDIT_USER_START
 			}
 		}
 	}
@@ -490,6 +518,7 @@ func oracleC04(ct corrTrace) error {
 			}
 			src := ct.H.Ops[a.Ev]
 			if src.K == "noise" && src.T != "unknown_ses" {
+				// (this includes LOGIN records without a usable session id)
 				return fmt.Errorf("step %d (%s): a session-less event (op %d) was emitted; history: %s", i, ct.H.Ops[i], a.Ev, ct.H)
 			}
 			if l, stray := ct.Model.stray[a.Ev]; stray && a.Identity != ct.Logins[l] {
